@@ -39,6 +39,11 @@ class HarnessError(Exception):
     pass
 
 
+def remove_watchdog():
+    signal.setitimer(signal.ITIMER_REAL, 0.0)
+    signal.signal(signal.SIGALRM, signal.SIG_IGN)
+
+
 class _Timeout(KeyboardInterrupt):
     """wall limit of one case; a KeyboardInterrupt subclass so that it is not swallowed as the
     exception of whatever simulated task happens to be running"""
